@@ -12,24 +12,27 @@ import (
 // World is one simulated universe: real collections, the reference model, the scheduler
 // and the oracles' bookkeeping.
 type World struct {
-	cs      *Case
-	sim     *Sim
-	primary *column.Collection
-	model   *Model
-	viol    *Violation
-	incon   string // run ended inconclusive (deadlock/hang outside C18, step cap)
-	stats   *RunStats
-	txns    map[int]*MTxn // in-flight transaction per simulated thread (0 = single client)
-	tap     *Tap
-	colls   []*column.Collection
-	inserts map[int][]uint32 // offsets inserted by the thread's current transaction (Target mode "mine")
-	trig    *trigLog
-	seq     uint64 // global event sequence number
-	hookFn  func(c *column.Collection, p uint8, arg uint32) // extra per-world hook bookkeeping
-	avoid   map[string]bool // known-finding triggers this run steers around (Case.Cfg.Avoid)
-	triggered map[string]bool // known-finding trigger situations that occurred in this run
-	touched []uint32 // offsets touched by the last transaction (sampled dumps)
-	taint   bool // goroutines or latches may have been left behind (panic, deadlock, hang)
+	cs        *Case
+	sim       *Sim
+	primary   *column.Collection
+	model     *Model
+	viol      *Violation
+	incon     string // run ended inconclusive (deadlock/hang outside C18, step cap)
+	stats     *RunStats
+	txns      map[int]*MTxn // in-flight transaction per simulated thread (0 = single client)
+	tap       *Tap
+	colls     []*column.Collection
+	inserts   map[int][]uint32 // offsets inserted by the thread's current transaction (Target mode "mine")
+	trig      *trigLog
+	seq       uint64                                                                   // global event sequence number
+	hookFn    func(c *column.Collection, latch *smutex.SMutex128, p uint8, arg uint32) // extra per-world hook bookkeeping
+	conc      *concState
+	readyFn   func(c *column.Collection, p uint8, arg uint32) func() bool // extra enabledness condition for the parking thread
+	reserves  map[int]int                                                 // number of offsets reserved so far, per thread
+	avoid     map[string]bool                                             // known-finding triggers this run steers around (Case.Cfg.Avoid)
+	triggered map[string]bool                                             // known-finding trigger situations that occurred in this run
+	touched   []uint32                                                    // offsets touched by the last transaction (sampled dumps)
+	taint     bool                                                        // goroutines or latches may have been left behind (panic, deadlock, hang)
 }
 
 func (w *World) taintedHard() bool { return false }
@@ -51,26 +54,25 @@ func (w *World) triggerList() []string {
 	return out
 }
 
-
 // RunStats is what one run reports for the evidence.
 type RunStats struct {
-	Steps       int            `json:"steps"`
-	Choices     int            `json:"choices"`
-	Txns        int            `json:"txns"`
-	Commits     int            `json:"commits"`
-	Aborts      int            `json:"aborts"`
-	Ops         int            `json:"ops"`
-	Dumps       int            `json:"dumps"`
-	Reads       int            `json:"reads"`
-	Faults      map[string]int `json:"faults,omitempty"`
-	Probes      map[string]int `json:"probes,omitempty"`
-	Hooks       map[string]int `json:"hooks,omitempty"`
-	Ilv         uint64         `json:"ilv"`
-	EndState    uint64         `json:"end_state"`
-	Trace       uint64         `json:"trace"`
-	SimTimeNs   int64          `json:"sim_time_ns,omitempty"`
-	Checks      int            `json:"checks"`
-	Nontrivial  bool           `json:"nontrivial"`
+	Steps      int            `json:"steps"`
+	Choices    int            `json:"choices"`
+	Txns       int            `json:"txns"`
+	Commits    int            `json:"commits"`
+	Aborts     int            `json:"aborts"`
+	Ops        int            `json:"ops"`
+	Dumps      int            `json:"dumps"`
+	Reads      int            `json:"reads"`
+	Faults     map[string]int `json:"faults,omitempty"`
+	Probes     map[string]int `json:"probes,omitempty"`
+	Hooks      map[string]int `json:"hooks,omitempty"`
+	Ilv        uint64         `json:"ilv"`
+	EndState   uint64         `json:"end_state"`
+	Trace      uint64         `json:"trace"`
+	SimTimeNs  int64          `json:"sim_time_ns,omitempty"`
+	Checks     int            `json:"checks"`
+	Nontrivial bool           `json:"nontrivial"`
 }
 
 func (st *RunStats) fault(k string) {
@@ -122,25 +124,34 @@ func (w *World) onHook(c *column.Collection, latch *smutex.SMutex128, p uint8, a
 		case uint8(column.SimAfterReserve):
 			w.onReserve(arg)
 		case uint8(column.SimMidCommit1):
-			if w.sim != nil && w.sim.cur != nil {
-				if t := w.txns[w.tid()]; t != nil {
-					w.applyBlock(t, arg)
-				}
+			if t := w.txns[w.tid()]; t != nil {
+				w.applyBlock(t, arg)
 			}
 		}
 	}
 	if w.hookFn != nil {
-		w.hookFn(c, p, arg)
+		w.hookFn(c, latch, p, arg)
 	}
 	if s := w.sim; s != nil && s.cur != nil {
-		s.park(Point{Kind: p, Coll: c, Latch: latch, Arg: arg})
+		pt := Point{Kind: p, Coll: c, Latch: latch, Arg: arg}
+		if w.readyFn != nil {
+			pt.Ready = w.readyFn(c, p, arg)
+		}
+		s.park(pt)
 	}
 }
 
 // applyBlock applies one block of a committing transaction to the model (called while the
 // committing thread holds the block's write latch).
 func (w *World) applyBlock(t *MTxn, block uint32) {
+	if t.applied[block] {
+		return
+	}
 	changes := w.model.ApplyBlock(t, block)
+	if t.changes == nil {
+		t.changes = map[uint32][]Change{}
+	}
+	t.changes[block] = changes
 	if w.trig != nil {
 		w.trig.expect(changes)
 	}
@@ -158,6 +169,10 @@ func (w *World) onReserve(off uint32) {
 		return
 	}
 	m.Reserved[off] = w.tid()
+	if w.reserves == nil {
+		w.reserves = map[int]int{}
+	}
+	w.reserves[w.tid()]++
 	m.notePeak()
 	if bound := uint32(64 * ((m.PeakFill+63)/64 + 1)); off >= bound && w.cs.Cfg.Prefill == nil {
 		w.fail(violation("insert-unbounded", "insert was handed offset %d although at most %d rows were ever live or reserved (bound %d)", off, m.PeakFill, bound))
